@@ -628,3 +628,14 @@ package types
 //@   props C20
 //@   ensures (bz == nil) == (ret == nil)
 //@   ensures bz != nil ==> fresh(ret) && off(ret) == 0 && len(ret) == len(bz) && (forall i int :: 0 <= i && i < len(bz) ==> ret[i] == bz[i])
+
+// C18/C20: rendering a decimal never touches it (no modifies clause: the operand's big.Int keeps its value) and
+// stays within the bounds of its buffers.
+//@ func (d Dec) String() (r string)
+//@   props C18 C20
+//@   requires d.Int != nil
+//@   dead ret1
+//@   dead ret2
+//@   loop 1 frame
+//@   loop 1 invariant 0 <= i && i <= 18 - inputSize && inputSize >= 1 && inputSize <= 18 && fresh(bzStr) && len(bzStr) == 20 && off(bzStr) == 0 && cap(bzStr) >= 20
+//@   ensures true
